@@ -12,6 +12,7 @@ import (
 	"os"
 	"os/exec"
 	"path/filepath"
+	"regexp"
 	"runtime"
 	"sort"
 	"strings"
@@ -197,8 +198,15 @@ func c11Err(err error) string {
 	if len(s) > 200 {
 		s = s[:200]
 	}
+	// which of several failing map entries is met first follows Go's map iteration order: the literal
+	// an error message quotes and the non-finite float it names are not functions of the arguments
+	s = c11Quoted.ReplaceAllString(s, `"…"`)
+	s = c11NonFinite.ReplaceAllString(s, "non-finite")
 	return fmt.Sprintf("%T:%s", err, s)
 }
+
+var c11Quoted = regexp.MustCompile(`"[^"]*"`)
+var c11NonFinite = regexp.MustCompile(`NaN|[+-]Inf`)
 
 func c11Out(b []byte, err error, pan string) string {
 	s := string(b)
@@ -812,7 +820,9 @@ func runC11(c *Ctx) {
 		// pool is what B takes out)
 		prev := runtime.GOMAXPROCS(1)
 		defer runtime.GOMAXPROCS(prev)
-		failing := func(i int) bool { return !strings.Contains(cold[i], "err=<nil> panic= ") && !strings.HasSuffix(cold[i], "err=<nil> panic=") }
+		failing := func(i int) bool {
+			return !strings.Contains(cold[i], "err=<nil> panic= ") && !strings.HasSuffix(cold[i], "err=<nil> panic=")
+		}
 		family := func(i int) string {
 			n := calls[i].name
 			if j := strings.Index(n, " <- "); j > 0 {
